@@ -58,6 +58,15 @@ pub fn run(path: &str, _workdir: &str) {
     for case in read_cases(path) {
         out.line(&format!("C {}", case.id));
         let (dbs, _r1, _r2) = new_dbs();
+        // header "cmd <role>": acknowledgements arrive as `ack <id> <node>` commands on an authenticated link session of a
+        // node in that role (the Acknowledge handler of process_request), not through the accounting function directly
+        let via_cmd = case.header.get(0).map(|h| h == "cmd").unwrap_or(false);
+        if via_cmd {
+            let role = crate::node::role_of(case.header.get(1).map(|s| s.as_str()).unwrap_or("P"));
+            dbs.node_state.store(role as usize, Ordering::SeqCst);
+        }
+        let (mut link, _lrx) = nundb::bo::Client::new_empty_and_receiver();
+        link.auth.store(true, Ordering::Relaxed);
         for op in &case.ops {
             let obs = match op[0].as_str() {
                 "reg" => {
@@ -70,8 +79,13 @@ pub fn run(path: &str, _workdir: &str) {
                 "ack" => {
                     let id: u64 = op[1].parse().unwrap();
                     let node = unhex_s(&op[2]);
-                    let r = dbs.acknowledge_pending_opp(id, &node);
-                    format!("ack {}", if r { 1 } else { 0 })
+                    if via_cmd {
+                        let _ = nundb::process_request::process_request(&format!("ack {} {}", id, node), &dbs, &mut link);
+                        "ack ?".to_string()
+                    } else {
+                        let r = dbs.acknowledge_pending_opp(id, &node);
+                        format!("ack {}", if r { 1 } else { 0 })
+                    }
                 }
                 o => panic!("unknown op {}", o),
             };
